@@ -116,7 +116,7 @@ CLAIMS = {
             "note": TIE},
     "C01": {"text": "Theorems: a registry filter wrapped as a stage yields exactly the filter's own output stream (stage_run_leafOut), and — about a deep embedding of pipe shapes over ARBITRARY stateful stages (any number of leaves, any nesting, unit wrappers): the output stream equals feeding each stage the complete output stream of its predecessor (run_eq_seq), shapes with the same leaf sequence are observationally equal (run_congr), one output per input (length_run); source pipes answer the source's items pushed through the stages and `none` exactly where the source does, without touching the stages (pulls_eq, runOpt_none_iff); finalising a sink pipe = finalising the sink after the filtered samples (finalize_eq). Correspondence: real Pipe/UnitPipe/BitOr code over probe stages, all nestings k<=6, logs compared.",
             "note": TIE + "Monomorphised (statically typed) nestings are represented by the dynamically dispatched enum over the same generic impls."},
-    "C10": {"text": "Theorems: Peek under EVERY interleaving of peek and pull (peek_correct); every adapter machine implements its iterator analogue for every inner machine (take, skip, chain, cycle, repeat, constant, increment, both pads incl. the repaired edge pad with count 0 / one element / empty, cache) and therefore every adapter tree of any depth does, fused end included (tree_correct); peek laws (peek_then_pull, peek_idem, peek_pull_plain). Correspondence: enumerated and random trees of depth <= 3 over the real adapters.",
+    "C10": {"text": "Theorems: Peek under EVERY interleaving of peek and pull (peek_correct); every adapter machine implements its iterator analogue for every inner machine (take, skip, chain, cycle, repeat, constant, increment, both pads incl. the repaired edge pad with count 0 / one element / empty, cache) and therefore every adapter tree of any depth does, fused end included (tree_correct); peek laws (peek_then_pull, peek_idem, peek_pull_plain). Correspondence: enumerated and random trees of depth <= 3 over the real adapters. For sources that are NOT fused (an end marker may be followed by further items) theorems on raw answer sequences: Peek = Peekable over the raw answers, end markers included (peek_raw_correct); Chain = the first source's answers up to its first end marker, then the second's, never polling the first again (pulls_chain); Take = the first n raw answers, then end markers (pulls_take); the cache wrapper passes raw answers through (pulls_cache). Adapter trees over scripted non-fused leaves are run against the same adapter machines.",
             "note": TIE + "FromIter is modelled over a list iterator (fused)."},
     "C11": {"text": "Theorems: min / max / bounds / last / sum / collect sinks hold exactly Spec.extremum / getLast? / Spec.sum / the samples, for every sample type (min_feed … collect_feed, statistics_feed); over ordered fields the Welford state is (n, batch mean, sum of squared deviations) (welford_correct), finalize = batch mean and unbiased sample variance with divisor n-1 (mean_finalize, meanVar_finalize), none exactly for the empty sequence (finalize_empty); underneath: the Welford state keeps count = n, mean = batch mean, M2 = sum of squared deviations (winv_step); batch statistics are executable specifications checked against all nine sinks on every run (finalize and running-filter paths).",
             "note": TIE + FLOATS},
